@@ -594,3 +594,129 @@ Proof.
   - (* dump *)
     destruct l; intros E _; injection E as <- _; exists pads; exact S.
 Qed.
+
+(* ------------------------------------------------------------------ op lists *)
+Definition sub_prog (ops : list bop) : bool := forallb sub_op ops.
+Definition seg_bound (st : bstate) : Prop := nsegs (w_dst (st_w st)) < 4294967296.
+
+Theorem brun_hinv e : forall ops st pads,
+  sinv st pads -> sub_prog ops = true -> Forall seg_bound (bstates e st ops) ->
+  Forall (fun st' => exists pads', sinv st' pads') (bstates e st ops).
+Proof.
+  induction ops as [|o r IH]; intros st pads S Hp Hb; cbn [bstates] in *; constructor; eauto.
+  cbn [sub_prog forallb] in Hp. apply andb_prop in Hp. destruct Hp as [Ho Hr].
+  inversion Hb as [|? ? _ Hb']; subst.
+  destruct (bstep e st o) as [[st1|] v] eqn:E; [|constructor].
+  assert (B1 : seg_bound st1) by (destruct r; cbn [bstates] in Hb'; inversion Hb'; assumption).
+  destruct (bstep_hinv e st pads o st1 v S Ho E B1) as [pads1 S1].
+  eapply IH; eauto.
+Qed.
+
+(* ------------------------------------------------------------------ initial states *)
+Lemma hinv_fresh m : inv m -> 0 < nsegs m < 4294967296 -> mem m 0 = repeat 0 8 ->
+  (forall i, 0 < i -> mem m i = []) -> hinv m [] [].
+Proof.
+  intros Hi Hn H0 Hr.
+  assert (Sm : segs_small m).
+  { intros i. destruct (Z_le_gt_dec i 0) as [L|G].
+    - assert (E : mem m i = mem m 0) by (unfold mem, get_seg; replace (Z.to_nat i) with O by lia; reflexivity).
+      rewrite E, H0. cbn. unfold maxSegmentSize. lia.
+    - rewrite Hr by lia. cbn. unfold maxSegmentSize. lia. }
+  constructor; auto; try lia; try (intros i j Hij Hj; cbn in Hj; lia); try (intros ? []; fail); try (intros ? ? _ []; fail).
+  - intros r [<-|[]]. unfold in_msg, root_reg. cbn [r_seg r_start r_size].
+    apply in_seg_intro; rewrite ?zlen_bm, ?seg_len_bm; try lia. rewrite H0. cbn. lia.
+  - intros q [<-|[]]. apply null_slot_ok. cbn [fst snd].
+    rewrite word_at_sub; try lia; [|rewrite H0; cbn; lia]. rewrite H0. reflexivity.
+Qed.
+
+Definition all_empty (m : bmsg) : Prop := forall i, mem m i = [].
+
+Lemma alloc_on_empty m sid sz m1 s1 a :
+  inv m -> all_empty m -> 0 <= sid < nsegs m -> 0 <= sz -> alloc m sid sz = Ok (m1, s1, a) ->
+  mem m1 s1 = repeat 0 (Z.to_nat (padToWord sz)) /\ 0 <= s1 < nsegs m1 /\ (forall i, 0 <= i -> i <> s1 -> mem m1 i = []).
+Proof.
+  intros [Hwf Har] He Hs Hz EA.
+  pose proof (alloc_fresh _ _ _ _ _ _ Hwf Har Hs Hz EA) as AF. cbv zeta in AF.
+  destruct AF as (A1 & _ & _ & _ & _ & A6 & _ & _ & _ & A10 & _).
+  unfold all_empty, mem in *. split; [rewrite A6, (He s1); reflexivity|]. split; [unfold nsegs; exact A1|].
+  intros i Hi Hne. rewrite A10 by assumption. apply He.
+Qed.
+
+Definition root_cap_ok (a : arena_spec) : Prop :=
+  match a with ArRaw (c :: _) => 8 <= c < 4294967296 | ArRaw [] => False | _ => True end.
+
+Lemma raw_all_empty k cs rl : all_empty (mkBM k (map (fun c => mkBS [] c) cs) [] rl).
+Proof.
+  intros i. unfold mem, get_seg. cbn [bm_segs].
+  destruct (Nat.lt_ge_cases (Z.to_nat i) (length (map (fun c => mkBS [] c) cs))) as [L|G].
+  - apply nth_In with (d := mkBS [] 0) in L. apply in_map_iff in L. destruct L as (c & <- & _). reflexivity.
+  - rewrite nth_overflow by lia. reflexivity.
+Qed.
+
+Lemma create_hinv a rl m :
+  arena_spec_wf a -> root_cap_ok a -> create a rl = Ok m -> nsegs m < 4294967296 -> hinv m [] [].
+Proof.
+  intros Hw Hr Hc Hn.
+  assert (Fin : forall m1 m2 sid x, inv m1 -> all_empty m1 -> 0 < nsegs m1 -> alloc m1 0 8 = Ok (m2, sid, x) -> sid = 0 ->
+                nsegs m2 < 4294967296 -> hinv m2 [] []).
+  { intros m1 m2 sid x I1 E1 N1 EA Es Hn2. subst sid.
+    assert (H08 : 0 <= 8) by lia. assert (H0 : 0 <= 0 < nsegs m1) by lia.
+    destruct (alloc_on_empty _ _ _ _ _ _ I1 E1 H0 H08 EA) as (A1 & A2 & A3).
+    destruct (alloc_new _ _ _ _ _ _ I1 H0 H08 EA) as (I2 & _).
+    apply hinv_fresh; auto; [lia|]. intros i Hi. apply A3; lia. }
+  unfold create in Hc.
+  assert (NM : forall k caps, caps_ok caps -> new_message k caps rl = Ok m -> hinv m [] []).
+  { intros k caps Hcaps. unfold new_message. cbv zeta.
+    match goal with |- context [bind ?X _] => destruct X as [m1| |] eqn:E1; cbn [bind]; try discriminate end.
+    assert (I1 : inv m1 /\ all_empty m1 /\ 0 < nsegs m1).
+    { destruct caps as [|c [|c2 r]]; try discriminate.
+      - destruct k.
+        + apply Ok_inj in E1. subst m1. split; [apply (raw_inv ASingle [0] rl); [repeat constructor; lia|reflexivity]|].
+          split; [apply (raw_all_empty ASingle [0] rl)|unfold nsegs, zlen; cbn; lia].
+        + unfold allocSegment in E1. cbn [bm_arena bm_segs map multi_find] in E1.
+          destruct (8 >? maxAllocSize) eqn:E8; [discriminate|].
+          destruct (nextAlloc 0 maxInt64 8) as [n| |] eqn:EN; cbn [bind] in E1; try discriminate.
+          apply Ok_inj in E1. cbn [fst app] in E1. subst m1.
+          assert (Hn0 : 0 <= n) by (apply (nextAlloc_facts 0 maxInt64 8 n); auto; lia).
+          split; [apply (raw_inv AMulti [n] rl); [repeat constructor; lia|discriminate]|].
+          split; [apply (raw_all_empty AMulti [n] rl)|unfold nsegs, zlen; cbn; lia].
+      - apply Ok_inj in E1. subst m1. split; [apply raw_inv; auto|]. split; [apply raw_all_empty|unfold nsegs, zlen; cbn; lia]. }
+    destruct I1 as (I1 & E1' & N1).
+    destruct (alloc m1 0 8) as [[[m2 sid] x]| |] eqn:EA; cbn [bind]; try discriminate.
+    destruct (sid =? 0) eqn:Es; [|discriminate]. intros X. apply Ok_inj in X. subst m2.
+    apply (Fin m1 m sid x); auto. lia. }
+  destruct a as [[c|]|[c|]|cs]; cbn [arena_spec_wf root_cap_ok] in *.
+  - apply (NM ASingle [c]); auto. repeat constructor. exact Hw.
+  - apply (NM ASingle []); auto. constructor.
+  - apply (NM AMulti [c]); auto. repeat constructor. exact Hw.
+  - apply (NM AMulti []); auto. constructor.
+  - destruct cs as [|c r]; [destruct Hr|].
+    destruct (newStruct (raw_message AMulti (c :: r) rl) 0 (mkOS 8 0)) as [[m1 p]| |] eqn:EN; cbn [bind] in Hc; try discriminate.
+    apply Ok_inj in Hc. cbn [fst] in Hc. subst m1.
+    unfold newStruct in EN. cbn [os_isValid negb DataSize PointerCount] in EN.
+    change (negb (8 <=? 65535 * 8)) with false in EN. cbv iota in EN.
+    change (totalSize (mkOS (padToWord 8) 0)) with 8 in EN.
+    destruct (alloc (raw_message AMulti (c :: r) rl) 0 8) as [[[m2 sid] x]| |] eqn:EA; cbn [bind] in EN; try discriminate.
+    apply Ok_inj in EN. injection EN as -> _.
+    pose proof (raw_inv AMulti (c :: r) rl Hw ltac:(discriminate)) as I0.
+    assert (Es : sid = 0).
+    { eapply alloc_in_place; [|exact EA]. unfold raw_message, get_seg, hasCapacity, blen, zlen, u32. cbn. inversion Hw; subst. lia. }
+    apply (Fin (raw_message AMulti (c :: r) rl) m sid x); auto.
+    + apply raw_all_empty.
+    + unfold nsegs, raw_message, zlen. cbn [bm_segs map length]. lia.
+Qed.
+
+(* [heap_inv_sublang]: every arena configuration that has a root word, every program of the
+   sub-language, every state the interpreter reaches while the message has fewer than 2^32
+   segments: the pool is the object table and the pointer-level invariant holds *)
+Theorem heap_inv_sublang a cfgd cfgs ncaps fuel src ops m :
+  arena_spec_wf a -> root_cap_ok a -> create a (init_rlimit cfgd) = Ok m -> sub_prog ops = true ->
+  let st0 := mkBSt (mkW m src (init_rlimit cfgs)) [] in
+  Forall seg_bound (bstates (mkEnv cfgd cfgs ncaps fuel) st0 ops) ->
+  Forall (fun st => exists pads, sinv st pads) (bstates (mkEnv cfgd cfgs ncaps fuel) st0 ops).
+Proof.
+  intros Ha Hr Hc Hp st0 Hb.
+  assert (B0 : seg_bound st0) by (destruct ops; cbn [bstates] in Hb; inversion Hb; assumption).
+  apply (brun_hinv _ ops st0 []); auto.
+  split; [|constructor]. unfold objs_of. cbn. eapply create_hinv; eauto.
+Qed.
